@@ -204,3 +204,29 @@ def inherit(ctx, rep, prop, rules, as_rule="H"):
         rep.fail(as_rule, v.key.replace("C12|", prop + "|", 1), v.where, v.message, witness=v.witness)
     if not bad:
         rep.ok(as_rule, "C12 %s hold" % ", ".join(rules), {"C12 obligations": r12.obligations})
+
+
+PLUMBING = ("H1", "H2", "H3", "H5", "H7")
+
+
+def plumbing(ctx, rep, prop):
+    """PB: every property is a statement about what `validate` returns for the contents the caller put into the parser.  Whatever a
+    property's own rules establish about the grammar actions, the validation rules or the traversal only reaches the caller if the
+    plumbing is the identity: add_content stores the parse of the text given (H3), only add_content / remove_content write the
+    parser's state (H1, H5), nothing has interior mutability (H2), and validate hands every stored result to validation::validate and
+    returns its answer untouched (H7).  C12 owns these rules; they are re-evaluated under every other property and re-keyed to it."""
+    rep.rule("PB", "plumbing (C12 H1, H2, H3, H5, H7 re-evaluated here): what the caller gets is what the parser built for the text the caller gave - "
+                   "add_content stores exactly the parse result under the caller's id, remove_content removes exactly that id, no other writer / cache / interior mutability, "
+                   "validate = validation::validate(collect_item_keys(), every stored result) returned as is")
+    import core as _core
+    r12 = _core.Report("C12")
+    run(ctx, r12)
+    bad = [v for v in r12.violations if v.rule in PLUMBING]
+    have = set(v.key.split("|", 1)[1] for v in rep.violations if "|" in v.key)
+    for v in bad:
+        tail = v.key.split("|", 1)[1]
+        if tail in have:
+            continue   # already reported by the property's own inheritance of the same rule
+        rep.fail("PB", prop + "|" + tail, v.where, v.message, witness=v.witness)
+    if not bad:
+        rep.ok("PB", "C12 %s hold" % ", ".join(PLUMBING), {"C12 obligations": r12.obligations, "rules": list(PLUMBING)})
